@@ -2,12 +2,12 @@ package core
 
 import (
 	"encoding/binary"
-	"sync/atomic"
 	"fmt"
 	"math/rand/v2"
 	"os"
 	"runtime"
 	"strings"
+	"sync/atomic"
 	"syscall"
 	"unicode/utf8"
 
@@ -61,7 +61,7 @@ type Ctx struct {
 
 	distinct   map[uint64]struct{}
 	bits       []uint64 // thorough tier: 2^30-bit bitmap instead of the exact set (conservative count)
-	crash      []byte // mmap'd crash buffer (nil if unavailable)
+	crash      []byte   // mmap'd crash buffer (nil if unavailable)
 	crashFile  *os.File
 	cur        *Case
 	sampleNext int64
